@@ -590,6 +590,25 @@ func (s *server) processPart(session *syncSession, req *clusterv1.SyncPartReques
 }
 
 func (s *server) handleCompletion(stream clusterv1.ChunkedSyncService_SyncPartServer, session *syncSession, req *clusterv1.SyncPartRequest) error {
+	if incompleteMsg := s.checkSessionComplete(session, req.GetCompletion()); incompleteMsg != "" {
+		// Chunks were lost, rejected or are still waiting in the reorder buffer: the part received so far is
+		// not what the sender holds. Discard it (the deferred partCtx.Close releases the handler without
+		// installing anything) and tell the sender, which keeps its copy for a retry.
+		s.log.Warn().Str("session_id", session.sessionID).Msg(incompleteMsg)
+		if s.metrics != nil {
+			op, grp, sn, sr, st := s.resolveSessionLabels(session)
+			s.metrics.totalErr.Inc(1, op, grp, sn, sr, st, "incomplete")
+		}
+		session.errorMsg = incompleteMsg
+		return s.sendResponse(stream, req, clusterv1.SyncStatus_SYNC_STATUS_SYNC_COMPLETE, incompleteMsg, &clusterv1.SyncResult{
+			Success:            false,
+			TotalBytesReceived: session.totalReceived,
+			DurationMs:         time.Since(session.startTime).Milliseconds(),
+			ChunksReceived:     session.chunksReceived,
+			PartsReceived:      uint32(len(session.partsProgress)),
+		})
+	}
+
 	if session.partCtx != nil && session.partCtx.Handler != nil {
 		if finishErr := session.partCtx.Handler.FinishSync(); finishErr != nil {
 			if s.metrics != nil {
@@ -649,6 +668,25 @@ func (s *server) handleCompletion(stream clusterv1.ChunkedSyncService_SyncPartSe
 	}
 
 	return s.sendResponse(stream, req, clusterv1.SyncStatus_SYNC_STATUS_SYNC_COMPLETE, "", syncResult)
+}
+
+// checkSessionComplete validates what was consumed against the totals the sender reports in its completion
+// message. It returns a non-empty reason when the session must not be installed.
+func (s *server) checkSessionComplete(session *syncSession, completion *clusterv1.SyncCompletion) string {
+	if session.chunkBuffer != nil && len(session.chunkBuffer.chunks) > 0 {
+		return fmt.Sprintf("sync incomplete: %d out-of-order chunks still buffered, waiting for chunk %d",
+			len(session.chunkBuffer.chunks), session.chunkBuffer.expectedIndex)
+	}
+	// Totals left at zero were not reported by the sender; there is nothing to compare against.
+	if completion.GetTotalChunks() != 0 && completion.GetTotalChunks() != session.chunksReceived {
+		return fmt.Sprintf("sync incomplete: sender sent %d chunks, %d were consumed",
+			completion.GetTotalChunks(), session.chunksReceived)
+	}
+	if completion.GetTotalBytesSent() != 0 && completion.GetTotalBytesSent() != session.totalReceived {
+		return fmt.Sprintf("sync incomplete: sender sent %d bytes, %d were consumed",
+			completion.GetTotalBytesSent(), session.totalReceived)
+	}
+	return ""
 }
 
 func (s *server) sendResponse(
